@@ -120,7 +120,11 @@ static RunResult exec_sorter(const Plan &p)
 		if (st.multiwake) res.faults["signal-wakes-two"] += st.multiwake;
 		if (st.starves) res.faults["thread-starved"] += st.starves;
 		if (st.delays) res.faults["thread-start-delayed"] += st.delays;
-		if (pool > 0 && st.routine_max_live[1] == (uint32_t)pool) res.probes["pool-saturated"]++;
+		{
+			PoolThreads pt = pool_threads(st);
+			if (pool > 0 && pt.named && pt.worker_max == (uint32_t)pool) res.probes["pool-saturated"]++;
+			if (pool > 0) { std::string wb = worker_bound_broken(st, (uint32_t)pool, 0, 1); if (!wb.empty()) res.fail("SCHED", "WORKER-COUNT", wb); }
+		}
 		if (pool > 0) res.probes["pooled-sorter"]++;
 	}
 	// spill files: only inside the configured directory, none left behind
